@@ -11,15 +11,26 @@ Ties (this file):
  (ii)  PostOffice: random op scripts (register_producer / register_spy / get_iter / next / kill_spies /
        SingleThreadProcessor.iter with a draining, throwing or closing consumer; failing producers and spies) run on the
        real PostOffice + real SaverSpy + real strax.Saver and on `c06.po`; answers and final bus state are diffed.
- (iii) the real ThreadedMailboxProcessor and SingleThreadProcessor driven through Context.get_iter under the
+ (iii) net dynamics (`net/dynamics`): the real ThreadedMailboxProcessor through Context.get_iter under the cooperative
+       scheduler with a FIXED thread priority, for chain / tree / multi-output / diamond / loader x lazy / eager x capacity
+       x every fault position, vs the driver's `c06.run` (= `wire` applied to the run's own components + `Net.step` under
+       the same priorities).  Compared are END states (at termination or at the deadlock), not every step: per mailbox
+       closed / killed / force_killed / n_sent / have_read, per thread its ending, the caller's outcome.  The driver also
+       evaluates `TreeNet (certOf (wire ...))` on each of these wirings (in-hypothesis fraction of the `_partial` theorems).
+ (iv)  the real ThreadedMailboxProcessor and SingleThreadProcessor driven through Context.get_iter under the
        cooperative scheduler (checks/lib/sched.py replaces `threading` inside strax.mailbox, the thread pools inside
        strax.processors.threaded_mailbox and `concurrent.futures.wait` inside strax.storage.common) with one fault
-       injected per run at every (stage kind, chunk index): source / mid plugin / multi-output plugin / loader / saver
-       (save of chunk i, close) of the target and of side outputs / consumer (raise in the loop, close()).
+       injected per run at every (stage kind, chunk index): source / mid plugin / multi-output plugin (also a parallel one
+       on a pool) / loader / saver (save of chunk i, close) of the target and of side outputs / consumer (stops after k
+       chunks, the abandoned iterator is closed); quick tier: 5 schedules per (graph, threaded configuration, position).
        Oracle (the property's own wording, on the real run): the caller sees the injected exception itself, no pipeline
        thread is alive afterwards, the scheduler never had to declare a deadlock (timeouts cannot fire otherwise);
-       without a fault the run ends with the complete result.  "Lag" of a plugin is MEASURED per run:
-       max over time of (input chunks fetched - input chunks whose time range the emitted output covers).
+       a run in which no fault fired ends with the COMPLETE result, whatever capacity and lags are (a short result
+       without an exception is never excused).  A deadlock is outside the property's domain only on a reconvergent graph
+       without fault whose capacity does not exceed the largest number of chunks one plugin withholds; that number is
+       MEASURED on a reference run: max over time of (input chunks fetched - input chunks whose time range the emitted
+       output covers) - 1, so a one-to-one plugin withholds 0.
+ Also: `mailbox/kill` (C05's tie on kill-heavy configurations) and `divider/corpus` (thread-free witnesses of D28 / D29).
 """
 from __future__ import annotations
 
@@ -57,7 +68,11 @@ TRUSTED = [
     "priority list in `c06.run`), not after every step; worker pools / futures are not in the Lean net",
 ]
 ASSUMPTIONS = [
-    "one fault per run; plugins compute in bounded time; process pools and wall-clock timeouts are outside",
+    "pipeline runs inject one fault per run (PostOffice scripts may hold several: there 'the original exception' is read as "
+    "'an injected exception'); plugins compute in bounded time; process pools and wall-clock timeouts are outside",
+    "net-level theorems hold for TreeNet nets only (no multi-output plugin, no reconvergent graph, readers drain their "
+    "inputs); that `wire` of tree-shaped components is a TreeNet is proved for finite families (decide) and evaluated by the "
+    "driver on every real wiring of net/dynamics — the general lemma is unproved",
     "savers / loaders of the pipeline runs are an in-memory StorageFrontend/Backend/Saver around the real "
     "strax.Saver.save_from / StorageBackend.loader logic (file-system effects belong to C04)",
 ]
